@@ -104,9 +104,9 @@ ILLEGAL = ",:;()"
 def bounds(tier):
     q = tier == "quick"
     return {
-        "matrix": "n=2,3,4 over 4 values (incl. 0); n=5 over %s; n=6 over the 2 smallest non-zero values; "
+        "matrix": "n=2,3,4 over 4 values (incl. 0); n=5 over %s; "
                   "n<=3 additionally x 6 dtype/layout variants; n=0,1 as unspecified"
-                  % ("the 3 non-zero values" if q else "all 4 values"),
+                  % ("the 3 non-zero values" if q else "all 4 values; n=6 over the 2 smallest non-zero values"),
         "additive": "all unrooted binary topologies n=4,5 x lengths^edges for a positive and a zero-containing "
                     "3-value palette; n=6: %s" % ("assignments with <= 2 distinct lengths (positive palette)" if q
                                                   else "all 3^9 assignments (positive palette) and <= 2 distinct "
@@ -642,30 +642,29 @@ def check_tree(ctx, case):
     ctx.outcome(M.canon(impl_spec))
 
     # ---- queries = explicit path sums on the parent-pointer model
+    table = M.pair_table(mnodes)
     for a in mnodes:
         xa = inodes[a.nid]
         for b in mnodes:
             xb = inodes[b.nid]
-            want = M.lca(a, b)
+            want, ws, wt = table[(a.nid, b.nid)]
             got = xa.lowest_common_ancestor(xb)
-            if got is not inodes[want.nid]:
-                V("lowest_common_ancestor", "wrong_node", "LCA differs from the model", want.nid, None)
+            if got is not inodes[want]:
+                V("lowest_common_ancestor", "wrong_node", "LCA differs from the model", want, None)
                 return
-            ws = M.path_sum(a, b)
             gs = xa.distance_to(xb)
             if abs(gs - ws) > tol(ws):
                 V("distance_to", "metric", "distance_to differs from the explicit path sum", ws, gs, pcls)
                 return
-            wt = M.path_sum(a, b, True)
             gt = xa.distance_to(xb, True)
             if gt != wt:
                 V("distance_to", "topological", "topological distance_to differs from the edge count", wt, gt)
                 return
     leaf_d = {}
+    leaf_nid = {m.idx: m.nid for m in mnodes if m.idx is not None}
     for i in range(n):
         for j in range(n):
-            a, b = _leaf(mnodes, i), _leaf(mnodes, j)
-            ws, wt = M.path_sum(a, b), M.path_sum(a, b, True)
+            _, ws, wt = table[(leaf_nid[i], leaf_nid[j])]
             gs, gt = tree.get_distance(i, j), tree.get_distance(i, j, True)
             gt2 = tree.get_distance(i, j, topological=True)
             leaf_d[(i, j)] = gs
@@ -1113,8 +1112,9 @@ def shards(tier, seed):
     parts5 = 16 if q else 96
     for p in range(parts5):
         out.append({"kind": "matrix", "n": 5, "vals": "nonzero" if q else "all", "part": p, "parts": parts5})
-    for p in range(8):
-        out.append({"kind": "matrix", "n": 6, "vals": "two", "part": p, "parts": 8})
+    if not q:
+        for p in range(8):
+            out.append({"kind": "matrix", "n": 6, "vals": "two", "part": p, "parts": 8})
     # additive
     for pal in ("pos", "zero"):
         out.append({"kind": "additive", "n": 4, "pal": pal, "t0": 0, "t1": 3, "distinct": 3})
@@ -1122,7 +1122,7 @@ def shards(tier, seed):
             out.append({"kind": "additive", "n": 5, "pal": pal, "t0": t0, "t1": t0 + 3, "distinct": 3})
     if q:
         for t0 in range(0, 105, 7):
-            out.append({"kind": "additive", "n": 6, "pal": "pos", "t0": t0, "t1": t0 + 7, "distinct": 2})
+            out.append({"kind": "additive", "n": 6, "pal": "pos", "t0": t0, "t1": t0 + 7, "distinct": 2, "extremes": True})
     else:
         for t0 in range(0, 105):
             out.append({"kind": "additive", "n": 6, "pal": "pos", "t0": t0, "t1": t0 + 1, "distinct": 3})
@@ -1223,6 +1223,8 @@ def run_additive(shard, ctx):
     n, t0, t1 = shard["n"], shard["t0"], shard["t1"]
     pals = BRANCH_PALETTES if shard["pal"] == "pos" else ZERO_BRANCH_PALETTES
     pal = pals[ctx.seed % len(pals)]
+    if shard.get("extremes"):
+        pal = (pal[0], pal[-1])
     topos = M.unrooted_topologies(n)
     for ti in range(t0, min(t1, len(topos))):
         edges = topos[ti]
